@@ -24,6 +24,7 @@
 import LccModel.Proto
 import LccModel.ProtoReport
 import LccModel.Model.Saving
+import LccModel.Model.SavingActs
 import LccModel.Model.Grammar
 import LccModel.Model.Store
 import LccModel.Model.Junit
@@ -127,10 +128,27 @@ def handle (j : Json) : Except String Json := do
     let clkArr := clk.toArray
     let clock : Nat → Nat := fun n => clkArr.getD n 0
     let want ← (← getArr j "want").toList.mapM (fun x => x.getNat?)
-    let r0 : Report := { Report.empty with nbThreads := nb }
-    let (trace, werr) := writerTrace (initState r0) es #[r0]
+    -- what user code does to the report outside the event stream: the title / information set before the run
+    -- (`Project.build_report_title/_info`) and `add_info` calls placed after the k-th handled event: [[k, name, value]]
+    let title ← match fieldOpt j "title" with
+      | .null => pure Report.empty.title
+      | tj => decStr tj
+    let infos ← match fieldOpt j "infos" with
+      | .null => pure []
+      | ij => decList (fun x => do
+          let a ← x.getArr?
+          let k ← (a.getD 0 Json.null).getNat?
+          let n ← decStr (a.getD 1 Json.null)
+          let v ← decStr (a.getD 2 Json.null)
+          pure (k, n, v)) ij
+    let infoAt (k : Nat) : List Act := (infos.filter (fun p => p.1 == k)).map (fun p => Act.addInfo p.2.1 p.2.2)
+    let acts : List Act := infoAt 0 ++ (es.zipIdx.flatMap (fun (e, i) => Act.ev e :: infoAt (i + 1)))
+    let r00 : Report := { Report.empty with nbThreads := nb, title := title }
+    -- the information published before the first event is in the report every session starts from
+    let r0 : Report := (infoAt 0).foldl (fun r a => match a with | .addInfo n v => addInfo r n v | _ => r) r00
+    let (trace, wfin, werr) := actTrace (initState r00) acts #[r0]
     let handled := trace.size - 1
-    let final := trace.getD handled r0
+    let final := if werr.isNone then wfin.report else trace.getD handled r0
     let stratOut := strats.map (fun st =>
       let (s, err) := sessRunPartial st clock (Sess.init clock r0) es
       Json.mkObj [("saves", Json.arr (s.saves.reverse.map (fun (p : Nat × Report) => Json.num p.1)).toArray),
@@ -180,7 +198,8 @@ def handle (j : Json) : Except String Json := do
       ("strategies", Json.arr stratOut.toArray),
       ("reports", Json.arr (wanted.map (fun (k : Nat) => Json.arr #[Json.num k, encReport (trace.getD k r0)])).toArray),
       ("final", encReport final),
-      ("prefix", Json.arr (wanted.map (fun (k : Nat) => Json.arr #[Json.num k, Json.bool (prefixB (trace.getD k r0) final)])).toArray)])
+      ("safe_acts", Json.bool (safeActs (initState r00) acts)),
+      ("prefix", Json.arr (wanted.map (fun (k : Nat) => Json.arr #[Json.num k, Json.bool (prefixAB (trace.getD k r0) final)])).toArray)])
   | "option" =>
     let cli ← getOptStr j "cli"
     let env ← getOptStr j "env"
